@@ -1155,7 +1155,7 @@ func c15DiffKey(h *hist.History, exp []hist.ExpTx, versions []*hist.Table, d *ru
 }
 
 func c15Stream(c *core.Ctx) {
-	nh := c.N(200, 12000)
+	nh := c.N(500, 12000)
 	for idx := 0; idx < nh; idx++ {
 		if !c.Mine(idx) {
 			continue
